@@ -18,7 +18,7 @@ META = {
 def jobs(tier):
     q = tier == "quick"
     out = []
-    temps = ["t_macro_sub", "t_alias_macro", "t_loop_sub", "t_seqfirst"] if q else ["t_macro_sub", "t_alias_macro", "t_blocks", "t_loop_sub", "t_seqfirst", "t_float"]
+    temps = ["t_macro_sub", "t_seqfirst"] if q else ["t_macro_sub", "t_alias_macro", "t_blocks", "t_loop_sub", "t_seqfirst", "t_float"]
     n = len(OPS)
     for t in temps:
         shrink = {}
@@ -26,7 +26,7 @@ def jobs(tier):
             base = max(lo, 0) if lo <= 0 <= hi else lo
             if nm == "size":
                 base = min(hi, 2)
-            shrink[nm] = (base, min(hi, base + 1))
+            shrink[nm] = (base, min(hi, base + (1 if (not q or nm == "i") else 0)))
         for op1 in range(n):
             if q:
                 out.extend(tjobs(f"{H}:c11_history", t, tier, shrink=shrink, fixed={"native": True, "op1": op1, "op3": -1},
